@@ -16,3 +16,6 @@ mod c14_retry;
 
 #[cfg(kani)]
 mod probe;
+
+#[cfg(kani)]
+mod c20_paths;
